@@ -551,7 +551,8 @@ class BlockTag(Tag):
 
     @property
     def funcname(self):
-        return self.name or "__M_anon_%d" % (self.lineno,)
+        # (line and column: several anonymous blocks may start on one line)
+        return self.name or "__M_anon_%d_%d" % (self.lineno, self.pos)
 
     def get_argument_expressions(self, **kw):
         return self.body_decl.get_argument_expressions(**kw)
